@@ -1125,5 +1125,9 @@ func (p *Parser) requireInt() (int64, error) {
 		return 0, err
 	}
 	val, err := p.Prev().Val()
+	if err != nil {
+		// e.g. a literal that does not fit into 64 bits
+		return 0, err
+	}
 	return val.(int64), err
 }
